@@ -2,5 +2,6 @@ SPECIFICATION Spec
 CONSTANTS
   MaxLen = 4
   LongLens = {8, 17, 64}
+  UniformLens = {150}
   Emit = TRUE
 INVARIANTS FailsIffSomeBad FirstFailure NoTreesOnFailure TreesInOrder
